@@ -22,7 +22,7 @@ def main():
         if n != 1:
             print('MUTANT-ERROR: pattern occurs %d times' % n); sys.exit(3)
         open(p, 'w').write(s.replace(old, new))
-        env = dict(os.environ, PYTHONPATH=d, ARTAP_REPO=d)
+        env = dict(os.environ, PYTHONPATH=d, ARTAP_REPO=d, VERIF_EVIDENCE_DIR=os.path.join(d, 'evidence'), VERIF_REPLAY_DIR=os.path.join(d, 'replays'))
         r = subprocess.run([os.path.join(os.path.dirname(os.path.dirname(os.path.abspath(__file__))), 'vcheck'), prop] + rest,
                            env=env, capture_output=True, text=True)
         out = (r.stdout + r.stderr).strip().splitlines()
